@@ -191,7 +191,7 @@ def _exhaustive(n, m, lo, hi, r, viol):
 
 def run(tier, r):
     bud = oc.Budget(oc.tier_seconds(tier, 90.0, 1500.0))   # safety cap only; counts are fixed
-    nrandom = 2600 if tier == "quick" else 45000
+    nrandom = 7000 if tier == "quick" else 120000
     lim = 10 if tier == "quick" else 14
     viol, samples = [], []
     stats = {"exhaustive_configs": [], "dims": {}, "nm_hist": {}, "x_cases": 0, "y_cases": 0, "n1_cases": 0,
